@@ -24,7 +24,7 @@ RULE = ("AsyncServiceInfo.async_request on a real Zeroconf in virtual time. Cach
         "than half its TTL is held (and always then, in QU queries), address questions go to the SRV target the object knew at "
         "that moment; all address accessors (by version, parsed, scoped, dns_addresses) are views of one duplicate-free list. "
         "a lookup that returns False is also judged from the cache alone (the SRV received last and a live address of its target, both "
-        "received before the return => it had what it needed). Records in one datagram arrive in shuffled order (addresses before the SRV that makes them relevant). Distinct "
+        "received before the return => it had what it needed). Records in one datagram arrive in shuffled order (addresses before the SRV that makes them relevant); SRV targets and address owners are sometimes spelled in another letter case than before. Distinct "
         "= (cache-state tuple, arrival bucket, timeout, forced type, outcome) classes.")
 ASSUMPTIONS = ["the read instant of a record is observed by wrapping ServiceInfo._process_record_threadsafe from the harness (no source change)",
                "at most one SRV record per instance is cached at a time (target changes arrive with the cache-flush bit)"]
@@ -95,7 +95,10 @@ def gen_scenario(rng: random.Random) -> Dict[str, Any]:
         ttl_mode = rng.choice(["normal", "normal", "normal", "ttl1", "goodbye"])
         target = rng.choice([HOSTS[0], HOSTS[0], HOSTS[1]])
         arrivals.append({"off": float(off), "kinds": kinds, "ttl_mode": ttl_mode, "target": target, "addr_host": rng.choice([target, HOSTS[0]]),
-                         "flush": rng.random() < 0.6})
+                         "flush": rng.random() < 0.6,
+                         # names are case-insensitive: a responder may spell the SRV target or an address owner differently
+                         # from what was seen before (same host, nothing changes for the lookup)
+                         "respell_srv": rng.random() < 0.3, "respell_addr": rng.random() < 0.15})
     arrivals.sort(key=lambda a: a["off"])
     return {"timeout": timeout, "forced": forced, "state": state, "srv_host": srv_host, "multi_a": multi_a, "arrivals": arrivals}
 
@@ -155,6 +158,10 @@ def run_scenario(res: Result, seed: int) -> None:
                 recs = []
                 for k in a["kinds"]:
                     ident = rec_for(k, a["target"] if k == "SRV" else a["addr_host"], 1 if rng.random() < 0.2 else 0)
+                    if k == "SRV" and a.get("respell_srv"):
+                        ident = (ident[0], ident[1], ident[2][:3] + (ident[2][3].upper(),))
+                    if k in ("A", "AAAA") and a.get("respell_addr"):
+                        ident = (ident[0], ident[1].title(), ident[2])
                     ttl = {"normal": 120 if k != "TXT" else 4500, "ttl1": 1, "goodbye": 0}[a["ttl_mode"]]
                     recs.append((ident, ttl, a["flush"]))
                 a["_recs"] = recs
